@@ -77,3 +77,9 @@ Proof. reflexivity. Qed.
 From SymfcG Require Import ShapesRef.
 Theorem c11_recorded_sources_in_force : ShapesRef_as_recorded = true.
 Proof. repeat split; reflexivity. Qed.
+
+(** The remaining source this property rests on is the recorded one (the six solver modules and solver_funcs; the orbit routines; the sum-rule builders): whole-function match,
+    regenerated on every run (closes the gap between "the expected statements are present" and "nothing else was added"). *)
+From SymfcG Require Import ShapesSolvers ShapesPerm ShapesSumRule.
+Theorem c11_recorded_sources2_in_force : ShapesSolvers_as_recorded = true /\ ShapesPerm_as_recorded = true /\ ShapesSumRule_as_recorded = true.
+Proof. repeat split; reflexivity. Qed.
